@@ -148,8 +148,8 @@ def slim(r):
 def run(ctx):
     ctx.add_obligations(vcheck.coq_props("Exec", "C20"))
     ctx.cov["checker_cmd"] = "coqc -Q coq/Exec BWExec coq/Exec/Props/C20.v; work/bin/h_fault -seed S -n N | model evaluated by vm_compute (coq/Exec/Corr.v fault_agrees)"
-    n = 600 if ctx.tier == "thorough" else 48
-    runs = hfault(["-seed", str(ctx.seed), "-n", str(n)] + (["-deep"] if ctx.tier == "thorough" else ["-maxids", "30"]))
+    n = 600 if ctx.tier == "thorough" else 49
+    runs = hfault(["-seed", str(ctx.seed), "-n", str(n)] + (["-deep"] if ctx.tier == "thorough" else ["-maxids", "20"]))
     if ctx.replay:
         rp = json.load(open(ctx.replay))
         want = (rp.get("violation") or {}).get("case", {}).get("case")
@@ -207,10 +207,11 @@ def run(ctx):
     ctx.cov["evaluations"] = len(runs)
     ctx.cov["distinct_nontrivial"] = len({vcheck.case_hash([r["prefix"], r["stmt"]["text"], r["sched"], r["bulk"]]) for r in runs if consumed(r)})
     ctx.cov["rule"] = ("one evaluation = one execution of a statement over the recording/failing driver: the fault-free run "
-                       "plus one run per (driver call made, mode in before / after-1 / write / late-1 = close, linger, then report; thorough also after-2 / after-0; quick injects at most 30 evenly spread calls of a statement, thorough all) plus one run with two failures; join SELECTs also through memoization.New(failing driver); "
+                       "plus one run per (driver call made, mode in before / after-1 / write / late-1 = close, linger, then report; thorough also after-2 / after-0; quick injects at most 20 evenly spread calls of a statement, thorough all) plus one run with two failures; join SELECTs also through memoization.New(failing driver); "
                        "non-trivial = a failure entry was consumed; distinct by (store prefix, statement, schedule, bulk)")
     ctx.cov["samples"] = [slim(r) for r in runs if consumed(r)][:3]
     ctx.cov["statements"] = len({r["case"] for r in runs})
+    ctx.cov["runs_failing_after_256_or_more_elements"] = sum(1 for r in runs if any(e["mode"] in ("after", "late") and e["j"] >= 257 for e in (r.get("sched") or [])))
     ctx.cov["runs_with_empty_error_message"] = sum(1 for r in runs if any(e["mode"] in ("empty", "typednil") for e in (r.get("sched") or [])))
     ctx.cov["runs_under_gomaxprocs_1"] = sum(1 for r in runs if r.get("procs") == 1)
     ctx.cov["runs_with_slow_twin_call"] = sum(1 for r in runs if any(e["mode"] == "delay" for e in (r.get("sched") or [])))
